@@ -50,6 +50,7 @@ def job_regexp_to_nfa(job, depth, maxlen, syms='ab', shape=None, exh=12):
                d.or_(d.any_(d.and_(g, view.qpres.get(q, FALSE) ^ 1) for q, g in view.q0.items()),
                      d.any_(d.and_(g, view.qpres.get(q, FALSE) ^ 1) for q, g in view.F.items())), replay=rp)
     job.failures_as_obligations(replay=rp)
+    job.sample_replays = 3
     return job.solve()
 
 
@@ -89,6 +90,7 @@ def job_dfa_to_regexp(job, n, syms, maxlen, order='symbolic', exh=14, perm=None)
     from .C14 import dfa_changed
     job.oblige('argument DFA unchanged', dfa_changed(view, DfaView(Dm, names, syms)), replay=rp)
     job.failures_as_obligations(replay=rp)
+    job.sample_replays = 3
     return job.solve()
 
 
